@@ -133,6 +133,7 @@ def arr_binop(I, op, a, b, node=None):
     if op is ast.Mult and A is None and B is not None: tag = ('smul', a, b)
     if op is ast.Mult and B is None and A is not None: tag = ('smul', b, a)
     if op is ast.Pow and A is not None and not isinstance(b, ArrRef) and conc(b) == 2: tag = ('sq', a)
+    if op is ast.Div and A is not None and B is None: tag = ('divs', a)
     vecs = None
     if op is ast.Mult and tag and tag[0] == 'smul':
         V_ = I.A(tag[2])
